@@ -21,16 +21,16 @@ Definition sig64 := TFixed 64.
 (* ---- block header and digest (spec: Block Format; Substrate generic::Header, DigestItem) ---- *)
 Definition engine_payload : ty := Eval vm_compute in (TStruct [fd "ConsensusEngineID" (TFixed 4); fd "Data" TBytes]).
 
-Definition digest_item : ty := Eval vm_compute in (TEnum [ cs 0 "Other" TBytes;
-          cs 4 "Consensus" engine_payload;
-          cs 5 "Seal" engine_payload;
-          cs 6 "PreRuntime" engine_payload;
+Definition digest_item : ty := Eval vm_compute in (TEnum [ cs 0 "OtherDigest" TBytes;
+          cs 4 "ConsensusDigest" engine_payload;
+          cs 5 "SealDigest" engine_payload;
+          cs 6 "PreRuntimeDigest" engine_payload;
           cs 8 "RuntimeEnvironmentUpdated" (TStruct []) ]).
 
 (* the DigestItem of the pinned tree: no variant 0 *)
-Definition digest_item_prefix : ty := Eval vm_compute in (TEnum [ cs 4 "Consensus" engine_payload;
-          cs 5 "Seal" engine_payload;
-          cs 6 "PreRuntime" engine_payload;
+Definition digest_item_prefix : ty := Eval vm_compute in (TEnum [ cs 4 "ConsensusDigest" engine_payload;
+          cs 5 "SealDigest" engine_payload;
+          cs 6 "PreRuntimeDigest" engine_payload;
           cs 8 "RuntimeEnvironmentUpdated" (TStruct []) ]).
 
 Definition header_of (item : ty) : ty :=
